@@ -112,6 +112,12 @@ def expr_sites(m: str) -> list[tuple[str, str]]:
         ("npgettext-kw-between", q + " | npgettext: 'ctx" + m + "', you: g, '" + m + "s', 2"),
         ("pgettext-empty-ctx", q + " | pgettext: ''"),
     ]
+    # unfinished calls: fewer positional arguments than the function needs, padded with message variables (such a call
+    # makes no catalog lookup; the rest of the template's messages must still be extracted)
+    s += [
+        ("npgettext-unfinished", q + " | npgettext: 'ctx" + m + "', you: g, n: 2"), ("npgettext-only-kw", q + " | npgettext: you: g, n: 2, z: 1"), ("npgettext-two-pos", q + " | npgettext: 'ctx" + m + "', '" + m + "s', you: g"),
+        ("ngettext-unfinished", q + " | ngettext: you: g, n: 2"), ("ngettext-one-pos", q + " | ngettext: '" + m + "s', you: g"), ("pgettext-unfinished", q + " | pgettext: you: g"),
+    ]
     for c in COUNTS:
         if c is None:
             s.append(("t-plural-nocount", q + " | t: plural: '" + m + "s'"))
@@ -354,7 +360,9 @@ def _programs(tier: str) -> list[tuple[list[tuple[str, str]], dict[str, str]]]:
                     progs.append(([("text", "x\n"), ("comment:NOTE1", ctext.replace("NOTE", "NOTE1")), ("text", gap), *two, ("text", "\n"), ("site:M3", "{{ 'M3' | t }}")], {}))
     # two sites (reduced kinds) with a comment before, between or none
     sm2 = site_markups("M2", tier)
-    red1 = [x for x in sm1 if x[0] in ("tr", "tr-plural-2", "tr-ctx", "t@output", "t-plural-1@output", "gettext@echo", "npgettext-2@assign", "t@ternary-alt", "t@tstr", "tr@partial", "t@partial", "t-ctx@liquid")]
+    red1 = [x for x in sm1 if x[0] in ("tr", "tr-plural-2", "tr-ctx", "t@output", "t-plural-1@output", "gettext@echo", "npgettext-2@assign", "t@ternary-alt", "t@tstr", "tr@partial", "t@partial", "t-ctx@liquid",
+                                       # the first site's expression starts on a later line than its markup
+                                       "t@output+nl", "gettext@echo+nl", "npgettext-2@assign+nl", "t@ternary-alt+nl", "tr+nl", "npgettext-unfinished@output", "ngettext-unfinished@echo")]
     red2 = [x for x in sm2 if x[0] in ("tr", "tr-plural-2", "tr-ctx", "t@output", "t-plural-1@output", "gettext@echo", "npgettext-2@assign", "t@ternary-alt", "t@tstr", "tr@partial", "t@partial", "t-ctx@liquid")]
     for (l1, s1, p1), (l2, s2, p2) in itertools.product(red1, red2):
         if p1 and p2:
